@@ -15,6 +15,7 @@
 package tcell
 
 import (
+	"bytes"
 	"sync"
 	"unicode/utf8"
 
@@ -384,11 +385,17 @@ outer:
 			// prefix: for the start of a multi-byte character it
 			// then asks for more instead of substituting U+FFFD.
 			nout, nin, _ := s.decoder.Transform(utfb, b[:l], false)
+			// U+FFFD is what the decoder substitutes for input it
+			// cannot make sense of; it counts as a character only
+			// if these bytes really are its encoding
+			s.encoder.Reset()
+			enc, _, err := transform.Bytes(s.encoder, []byte(string(utf8.RuneError)))
+			genuine := err == nil && bytes.Equal(enc, b[:nin])
 			s.Unlock()
 
 			if nout != 0 {
 				r, _ := utf8.DecodeRune(utfb[:nout])
-				if r != utf8.RuneError {
+				if r != utf8.RuneError || genuine {
 					ev := NewEventKey(KeyRune, r, ModNone)
 					s.postEvent(ev)
 				}
